@@ -342,6 +342,9 @@ func (x *XRefParser) parseXRefStream() (*XRefTable, error) {
 			index[i] = int(intVal)
 		}
 	}
+	if len(index)%2 != 0 {
+		return nil, fmt.Errorf("invalid /Index array length: %d (expected pairs)", len(index))
+	}
 
 	// Parse /W array - field widths [type field1 field2]
 	wObj := stream.Dict.Get("W")
@@ -362,7 +365,13 @@ func (x *XRefParser) parseXRefStream() (*XRefTable, error) {
 		if !ok {
 			return nil, fmt.Errorf("invalid /W element type: %T", val)
 		}
+		if intVal < 0 || intVal > 8 {
+			return nil, fmt.Errorf("invalid /W field width: %d", intVal)
+		}
 		w[i] = int(intVal)
+	}
+	if w[0]+w[1]+w[2] == 0 {
+		return nil, fmt.Errorf("invalid /W array: all field widths are zero")
 	}
 
 	// Parse entries from binary data
@@ -377,6 +386,9 @@ func (x *XRefParser) parseXRefStream() (*XRefTable, error) {
 	for i := 0; i < len(index); i += 2 {
 		firstObjNum := index[i]
 		count := index[i+1]
+		if firstObjNum < 0 || count < 0 {
+			return nil, fmt.Errorf("invalid /Index subsection: %d %d", firstObjNum, count)
+		}
 
 		for j := 0; j < count; j++ {
 			objNum := firstObjNum + j
